@@ -1795,7 +1795,16 @@ func (m *repoManager) makeMaster(newMasterUUID dvid.UUID, oldMasterBranchName st
 
 // newVersion creates a new version as a child of the given parent.  If the
 // assign parameter is not nil, the new node is given the UUID.
+// newVersionMutex serializes version creation.  The branch-uniqueness checks in newVersion read the
+// DAG and the child is inserted afterwards, so two simultaneous requests could both pass the checks
+// and create two children on one branch.  It is the outermost lock (taken before any repo or node
+// lock and by nothing else), so it cannot take part in a lock-order cycle.
+var newVersionMutex sync.Mutex
+
 func (m *repoManager) newVersion(parent dvid.UUID, note string, branchname string, assign *dvid.UUID) (dvid.UUID, error) {
+	newVersionMutex.Lock()
+	defer newVersionMutex.Unlock()
+
 	r, err := m.repoFromUUID(parent)
 	if err != nil {
 		return dvid.NilUUID, err
